@@ -523,6 +523,11 @@ type EncDisp struct {
 	Panic bool   `json:"panic"`
 	Pfn   string `json:"pfn"`
 	Bytes []int  `json:"bytes"`
+	// the family's own encoder called directly: into a fresh buffer (f) and into a buffer that already holds octets (p;
+	// Bytesp is what the call appended).  Which encoder runs - or that none does - is decided by the message type alone.
+	Okf, Okp, Panicf, Panicp bool
+	Bytesf, Bytesp           []int
+	PrefixKept               bool
 }
 
 // encode dispatch: a message whose header view carries message type Mt and whose body is M (or none)
@@ -557,6 +562,39 @@ func runEncDisp(c Case) EncDisp {
 	})
 	if pi != nil {
 		e.Panic, e.Pfn = true, pi.Fn+": "+pi.Kind
+	}
+	e.Bytesf, e.Bytesp, e.PrefixKept = []int{}, []int{}, true
+	e.Okf, e.Okp, e.Panicf, e.Panicp = e.Ok, e.Ok, e.Panic, e.Panic
+	direct := func(buf *bytes.Buffer) error {
+		if m.GmmMessage != nil {
+			return m.GmmMessageEncode(buf)
+		}
+		return m.GsmMessageEncode(buf)
+	}
+	if m.GmmMessage != nil || m.GsmMessage != nil {
+		if pi := ev.Guard(func() {
+			buf := new(bytes.Buffer)
+			err := direct(buf)
+			e.Okf, e.Panicf = err == nil, false
+			if e.Okf {
+				e.Bytesf = ev.Ints(buf.Bytes())
+			}
+		}); pi != nil {
+			e.Okf, e.Panicf = false, true
+		}
+		if pi := ev.Guard(func() {
+			pre := []byte{0x7E, 0x02, 0xDE, 0xAD, 0xBE, 0xEF, 0x07}
+			buf := bytes.NewBuffer(append([]byte{}, pre...))
+			err := direct(buf)
+			e.Okp, e.Panicp = err == nil, false
+			all := buf.Bytes()
+			e.PrefixKept = len(all) >= len(pre) && bytes.Equal(all[:len(pre)], pre)
+			if e.Okp && e.PrefixKept {
+				e.Bytesp = ev.Ints(all[len(pre):])
+			}
+		}); pi != nil {
+			e.Okp, e.Panicp = false, true
+		}
 	}
 	return e
 }
